@@ -340,7 +340,12 @@ def read_jsonl(path):
         for line in f:
             line = line.strip()
             if line:
-                rows.append(json.loads(line))
+                try:
+                    rows.append(json.loads(line))
+                except ValueError:
+                    # a suite killed by its timeout may leave a truncated last line
+                    rows.append({"suite": "?", "class": "truncated-output", "input": "", "model": None, "impl": None,
+                                 "oracle": None, "nontrivial": False})
     return rows
 
 
